@@ -402,3 +402,37 @@ fn c04_canonical_rdata_order_mx_txt() {
         canon_order!(Txt::from_octets(&wx[..]).unwrap(), Txt::from_octets(&wy[..]).unwrap());
     }
 }
+
+// @funcs: Chain::{iter_labels,name_eq,name_cmp} versus flat names of the SAME length with shifted label boundaries
+// @bound: chained name with structure (2,1) against a flat name with structure (1,2) (same total length, symbolic content): equality/order agree with the flat representation of the chained name, and names with different label boundaries are never equal
+#[kani::proof]
+#[kani::unwind(10)]
+fn c04_name_representation_shifted_boundaries() {
+    let (fa, fb) = (FlatName::any::<2, 1>(), FlatName::any::<1, 2>());
+    let flat = fa.name();
+    let rel = RelativeName::from_slice(&fa.w[..3]).unwrap();
+    let rest = Name::from_slice(&fa.w[3..fa.n]).unwrap();
+    let chain = rel.chain(rest).unwrap();
+    let other = fb.name();
+    assert!(!flat.name_eq(&other));
+    assert!(!chain.name_eq(&other) && !other.name_eq(&chain));
+    assert!(chain.name_cmp(&other) == flat.name_cmp(&other));
+    assert!(chain.name_cmp(&other) != Ordering::Equal);
+}
+
+// @funcs: <Rrsig as CanonicalOrd>::canonical_cmp, Rrsig::compose_canonical_rdata
+// @bound: pairs of RRSIG values with all fixed fields symbolic, signer names with structures (1,1) and (1,0) (symbolic content, so name order and wire order can differ), empty signatures: canonical_cmp = octet-wise order of the canonical wire forms
+#[kani::proof]
+#[kani::unwind(28)]
+fn c04_canonical_rdata_order_rrsig() {
+    use domain::base::Rtype;
+    use domain::rdata::dnssec::{Rrsig, Timestamp};
+    let (fa, fb) = (FlatName::any::<1, 1>(), FlatName::any::<1, 0>());
+    let (t1, t2, a1, a2, l1, l2, k1, k2): (u16, u16, u8, u8, u8, u8, u16, u16) =
+        (kani::any(), kani::any(), kani::any(), kani::any(), kani::any(), kani::any(), kani::any(), kani::any());
+    let (o1, o2, e1, e2, i1, i2): (u32, u32, u32, u32, u32, u32) = (kani::any(), kani::any(), kani::any(), kani::any(), kani::any(), kani::any());
+    let r1 = Rrsig::new(Rtype::from_int(t1), SecurityAlgorithm::from_int(a1), l1, Ttl::from_secs(o1), Timestamp::from(e1), Timestamp::from(i1), k1, fa.name(), &[][..]).unwrap();
+    let r2 = Rrsig::new(Rtype::from_int(t2), SecurityAlgorithm::from_int(a2), l2, Ttl::from_secs(o2), Timestamp::from(e2), Timestamp::from(i2), k2, fb.name(), &[][..]).unwrap();
+    let w = canon_order!(r1, r2);
+    kani::cover!(w == Ordering::Less && t1 == t2 && a1 == a2 && l1 == l2 && o1 == o2 && e1 == e2 && i1 == i2 && k1 == k2, "order decided by the signer name");
+}
